@@ -582,7 +582,11 @@ impl PoeticNumberLiteral {
                         .map(|x| Self::word_len(x))
                         .fold(Self::word_len(s0), |a, b| a + b),
                 };
-                (length % 10) as f64 * Self::ten_to_the(exponent - idx as i32)
+                // a zero digit contributes nothing, however large its weight (0 * inf is NaN)
+                match length % 10 {
+                    0 => 0.0,
+                    digit => digit as f64 * Self::ten_to_the(exponent - idx as i32),
+                }
             })
             .sum()
     }
